@@ -266,6 +266,44 @@ def large_magnitudes():
     return out
 
 
+def constraint_rank_sequences():
+    """a scalar size for an ellipsis axis broadcasts over its repetitions, a tuple fixes one entry per repetition: the outcome for either form must not depend on
+    which form was solved first in this process (same numbers, different rank)"""
+    import einx
+    out = []
+    for desc, shape, name in (("(a b)...", (6, 8), "a"), ("(a b)... c", (6, 8, 3), "a"), ("a... (b c)", (2, 2, 6), "c"), ("(a b)...", (6,), "a")):
+        r = len(shape) - (1 if desc.endswith(" c") else 0) - (1 if desc.startswith("a...") else 0)
+        reps = r if not desc.startswith("a...") else 1
+        forms = [("scalar", 2), ("tuple-1", (2,)), ("tuple-r", (2,) * max(reps, 1)), ("tuple-r+1", (2,) * (reps + 1)), ("list-1", [2]), ("array-1", np.array([2]))]
+        for entry in ("solve_axes", "solve_shapes", "matches"):
+            f = getattr(einx, entry)
+            for order in (forms, forms[::-1]):
+                got = {}
+                for label, v in order:
+                    o = harness.outcome(lambda: f(desc, np.zeros(shape), **{name: v}), 15)
+                    got[label] = ("ok", str(o[1])) if o[0] == "ok" else (o[0], o[1] if len(o) > 1 else "")
+                key = (desc, entry, shape)
+                out.append((key, "fwd" if order is forms else "rev", got))
+    res = []
+    by = {}
+    for key, direction, got in out:
+        by.setdefault(key, {})[direction] = got
+    reps_of = {("(a b)...", (6, 8)): 2, ("(a b)... c", (6, 8, 3)): 2, ("a... (b c)", (2, 2, 6)): 0, ("(a b)...", (6,)): 1}  # 0: the constrained axis is not under an ellipsis
+    for (desc, entry, shape), d in by.items():
+        dd = {"description": desc, "shapes": [list(shape)], "kwargs": {}, "entry": entry}
+        reps = reps_of[(desc, shape)]
+        bad = None
+        for direction in ("fwd", "rev"):
+            for label, o in d[direction].items():
+                k = {"scalar": None, "tuple-1": 1, "list-1": 1, "array-1": 1, "tuple-r": reps, "tuple-r+1": reps + 1}[label]
+                valid = k is None or (reps > 0 and k == reps)
+                accepted = (o[0] == "ok" and o[1] != "False")
+                if accepted != valid:
+                    bad = f"{entry}({desc!r}, size given as {label}) is {'accepted' if accepted else 'rejected: ' + str(o[1])} in call order {direction}; a tuple must have one entry per repetition ({reps}), a scalar is broadcast"
+        res.append(("constraint-rank", dd, bad) if bad else ("ok", dd, None))
+    return res
+
+
 def rule_exact():
     """C02.S.exact: no 32-bit casts of sizes in the solving code; lengths of flattened / concatenated axes are computed with Python ints"""
     sites, failing = [], []
@@ -310,6 +348,7 @@ def run(tier, seed):
     n = 24 if tier == "quick" else 400
     res = [x for r in harness.pmap(_work, [(seed, i) for i in range(n)]) for x in r]
     res += large_magnitudes()
+    res += constraint_rank_sequences()
     cnt = {}
     for r in res:
         cnt[r[0]] = cnt.get(r[0], 0) + 1
